@@ -326,3 +326,46 @@ def _from_fn_binds_replay(self, obligation, m):
 
 DNAFromFnBinds.replay = _from_fn_binds_replay
 DNAFromFnBinds.small_models = _HandOut.small_models
+
+
+# ---------------------------------------------------------------------------
+# Lookup tables follow edits.  `d[name]`, `d[id]`, `d[decision_point]` answer from
+# two lazily built tables (`_decision_by_id_cache`, `_named_decisions`); the
+# numeric / dict views are computed from the tree itself.  They agree after an
+# in-place edit only if the change hook that runs on the edited node AND on
+# every ancestor drops both tables.  The hook under contract is whatever
+# `DNA._on_change` resolves to (today `Object._on_change` -> `DNA._on_bound`): for
+# an update of a decision below this node -- a child replaced by index, a value
+# assigned, at depth 1 or 2 -- both tables are None afterwards.
+# (Metadata-only updates are deliberately not constrained: no table depends on them.)
+# Shape-bounded: the update paths of `variants`.
+
+@register
+class DnaChangeHookDropsLookupTables(Contract):
+  prop = 'C12'
+  bounded = True       # stated bound: the concrete update paths of `variants`
+  target = f'{GB}:DNA._on_change'
+  raises = {Exception: ()}
+  variants = ('children[0]', 'children[1].children[0]', 'value', 'children[0].value', 'children')
+  inline = (f'{GB}:DNA._on_bound', 'pyglove.core.symbolic.object:Object._on_bound',
+            'pyglove.core.symbolic.object:Object._on_change')
+
+  def inputs(self, b):
+    self_ = SObj(geno.DNA, {'_decision_by_id_cache': SAny('stale id table'),
+                            '_named_decisions': SAny('stale name table')}, name='self')
+    return dict(self=self_, field_updates={pg.KeyPath.parse(self.variant): SAny('update')}), {}
+
+  def ensures_both_lookup_tables_are_dropped(self, self_):
+    return self_._decision_by_id_cache is None and self_._named_decisions is None
+
+  def replay(self, obligation, m):
+    space = pg.dna_spec(pg.Dict(a=pg.oneof([1, 2, 3], name='a'), b=pg.oneof([4, 5, 6], name='b')))
+    d = pg.DNA([0, 1], spec=space)
+    before = (d['a'].value, d['b'].value)          # builds the tables
+    d.children.rebind({1: pg.DNA(2)})
+    d.use_spec(space)
+    after_tables = d['b'].value
+    after_tree = d.to_numbers()[1]
+    bad = after_tables != after_tree
+    return dict(outcome='reproduced' if bad else 'not-reproduced',
+                detail=f'lookup, replace child 1 in place, lookup again: d["b"] = {after_tables}, to_numbers()[1] = {after_tree} (before: {before})')
